@@ -479,3 +479,29 @@ Definition c07_step (F : dfmt) (op e m : Z) (neg : bool) : list Z :=
   if op =? 0 then enc_den (mbf_div10_den (d_C F) (e, m, neg))
   else if op =? 1 then enc_den (Ok (mbf_mul10_den (d_C F) (e, m, neg)))
   else enc_den (Ok (mbf_apply_carry_den (d_C F) (e, m, neg))).
+
+(* ------------------------------------------------------------------------------------------------ *)
+(* LIST of a number token: Lister._detokenise_number(ins, lead) with trail = the PLUS_BYTES[lead] bytes after
+   the lead byte (0B octal, 0C hex, 0D/0E line number, 0F one-byte integer, 11h..1Bh the constants 0..10,
+   1C integer, 1D single, 1F double); any other lead: the failsafe b'' *)
+Definition list_number (lead : Z) (trail : list Z) : res (list Z) :=
+  if lead =? 11 then Ok ([38; 79] ++ i_to_oct trail)
+  else if lead =? 12 then Ok ([38; 72] ++ i_to_hex trail)
+  else if lead =? 15 then Ok (dec_str (py_nth 0 trail 0))
+  else if (17 <=? lead) && (lead <=? 27) then Ok (dec_str (lead - 17))
+  else if (lead =? 13) || (lead =? 14) then Ok (dec_str (i_uval trail))
+  else if lead =? 28 then v_to_repr (VInt trail) false true
+  else if lead =? 29 then v_to_repr (VSng trail) false true
+  else if lead =? 31 then v_to_repr (VDbl trail) false true
+  else Ok [].
+
+(* the integer an integer-constant token stands for when the program runs (Integer.from_token) *)
+Definition token_int (lead : Z) (trail : list Z) : option Z :=
+  if (17 <=? lead) && (lead <=? 27) then Some (lead - 17)
+  else if lead =? 15 then Some (py_nth 0 trail 0)
+  else if lead =? 28 then Some (i_val trail)
+  else None.
+
+(* harness: the listed line `10 PRINT <token>` *)
+Definition c07_list (lead : Z) (trail : list Z) : list Z :=
+  enc_str (rmap (fun s => [49; 48; 32; 80; 82; 73; 78; 84; 32] ++ s) (list_number lead trail)).
